@@ -297,12 +297,32 @@ use std::sync::Arc;
 #[cfg(feature = "metrics")]
 use std::sync::Once;
 use std::task::{Context, Poll};
-use tokio::sync::Mutex;
 use tower::Service;
 #[cfg(feature = "tracing")]
 use tracing::debug;
 
 pub use circuit::{CircuitMetrics, CircuitState};
+
+/// The lock around the circuit.
+///
+/// It is only ever held for a few synchronous statements, never across an await, so a plain
+/// mutex is enough. It must not be a fair async mutex: that hands the lock to the first queued
+/// `lock()` future, and a call future that queued once and is then left un-polled by its owner
+/// (a `select!` loop running another branch, a future kept for later) would own the lock without
+/// running, so that every other call on every clone hangs. `lock()` keeps the async signature
+/// of the mutex it replaces; it completes at its first poll.
+pub(crate) struct Mutex<T>(std::sync::Mutex<T>);
+
+impl<T> Mutex<T> {
+    pub(crate) fn new(value: T) -> Self {
+        Self(std::sync::Mutex::new(value))
+    }
+
+    pub(crate) async fn lock(&self) -> std::sync::MutexGuard<'_, T> {
+        // No invariant spans a panic of a listener or classifier: a poisoned lock stays usable
+        self.0.lock().unwrap_or_else(|e| e.into_inner())
+    }
+}
 pub use classifier::{
     DefaultClassifier, FailureClassifier as FailureClassifierTrait, FnClassifier,
 };
